@@ -320,7 +320,7 @@ class NodeExpandedDiGraph(nx.DiGraph):
         for constraint in subpath_constraints:
             expanded_constraint = []
             for node in constraint:
-                if node not in self.original_G.nodes:
+                if not isinstance(node, str) or node not in self.original_G.nodes:
                     utils.logger.error(f"{__name__}: Node {node} not in the original graph.")
                     raise ValueError(f"Node {node} not in the original graph.")
                 expanded_constraint.append((node + '.0', node + '.1'))
